@@ -2,6 +2,7 @@
 import PflDrv.CFG
 import Pfl.Model.PDA
 import Pfl.Oracle.PdaAcc
+import Pfl.Model.PDAObject
 open Lean Pfl
 namespace PflDrv
 
@@ -28,11 +29,46 @@ def jPDA {σ γ} (fs : σ → Json) (fg : γ → Json) (P : PDA σ γ) : Json :=
 
 def pdaFuel : Nat := 100000
 
+/-- a mutator call of a history on a PDA object (`Pfl/Model/PDAObject.lean`) -/
+def asPDAObjOp (j : Json) : R PDAObj.Op := do
+  match ← asArr j with
+  | [k, q, a, x, q2, push] => match ← asStr k with
+    | "add_t" => pure (.addT (← asStr q) (← asOptStr a) (← asStr x) (← asStr q2) (← asStrList push))
+    | o => throw s!"bad PDA object op {o}"
+  | [k, q] => match ← asStr k with
+    | "set_s" => pure (.setStart (← asStr q))
+    | "set_z" => pure (.setStartStack (← asStr q))
+    | "add_f" => pure (.addFinal (← asStr q))
+    | o => throw s!"bad PDA object op {o}"
+  | _ => throw "bad PDA object op"
+
+def jPDAObj (o : PDAObj.Obj) : Json :=
+  Json.mkObj [("states", jList jStr o.states), ("inputs", jList jStr o.inputs), ("stack", jList jStr o.stack),
+    ("start", jOpt jStr o.start), ("startStack", jOpt jStr o.startStack), ("finals", jList jStr o.finals),
+    ("trans", jList (fun (e : PDAObj.Key × List PDAObj.Outcome) =>
+      Json.arr #[Json.arr #[jStr e.1.1, jOpt jStr e.1.2.1, jStr e.1.2.2],
+        jList (fun (out : PDAObj.Outcome) => Json.arr #[jStr out.1, jList jStr out.2]) e.2]) o.trans),
+    ("num", jNat (PDAObj.numTransitions o.trans)),
+    ("copyTrans", jList (fun (e : PDAObj.Key × List PDAObj.Outcome) =>
+      Json.arr #[Json.arr #[jStr e.1.1, jOpt jStr e.1.2.1, jStr e.1.2.2],
+        jList (fun (out : PDAObj.Outcome) => Json.arr #[jStr out.1, jList jStr out.2]) e.2]) (PDAObj.copyT o.trans))]
+
+def pdaObjRun : PDAObj.Obj → List PDAObj.Op → List Json
+  | _, [] => []
+  | o, op :: ops => let o' := PDAObj.step o op; jPDAObj o' :: pdaObjRun o' ops
+
 def pdaHandle (op : String) (j : Json) : R Json := do
   match op with
   | "pda.ofCFG" =>
     let G ← asCFG (← field j "G")
     pure (jPDA jStr jStr (PDA.ofCFG G))
+  | "pda.objRun" =>   -- model of a PDA object built and extended through its API (C19)
+    let i ← field j "init"
+    let o₀ := PDAObj.mk (← asStrList (← field i "states")) (← asStrList (← field i "inputs"))
+      (← asStrList (← field i "stack")) (← asOptStr (fieldD i "start" Json.null))
+      (← asOptStr (fieldD i "startStack" Json.null)) (← asStrList (← field i "finals"))
+    let ops ← (← asArr (← field j "ops")).mapM asPDAObjOp
+    pure (Json.mkObj [("init", jPDAObj o₀), ("steps", Json.arr (pdaObjRun o₀ ops).toArray)])
   | _ =>
   let P ← asPDA (← field j "P")
   match op with
